@@ -10,6 +10,7 @@ import LW.Driver.Sampling
 import LW.Driver.C18
 import LW.Driver.C17
 import LW.Driver.C19
+import LW.Driver.C10
 
 open Lean LW.Driver
 
@@ -21,7 +22,8 @@ def handlers : List (String × (Json → R Json)) :=
    ("samp", handleSamp),
    ("sv", handleC18),
    ("res", handleC17),
-   ("display", handleC19)]
+   ("display", handleC19),
+   ("c10", LW.Driver.C10.handleC10)]
 
 def dispatch (req : Json) : R Json := do
   let op ← asStr (← fld req "op")
